@@ -23,6 +23,23 @@ pub fn rewrites(f: &F, ctx: &NetCtx, rich: bool) -> Vec<(String, String)> {
         st.binder_names = a.clone();
         out.push((format!("rename binders to {a:?}"), style::render(f, names, &st)));
     }
+    // state variables named like NETWORK variables (separate name spaces: {a} is not the proposition a):
+    // the outermost binders take a network variable's name, and every binder takes one by level
+    {
+        let levels = style::binder_levels(f);
+        if !levels.is_empty() {
+            for (j, pname) in names.props.iter().enumerate() {
+                let mut st = base.clone();
+                st.binder_names = levels.iter().zip(base.binder_names.iter()).map(|(l, d)| if *l == 0 { pname.clone() } else { d.clone() }).collect();
+                out.push((format!("rename outermost binders to the network variable {pname}"), style::render(f, names, &st)));
+                if names.props.len() >= 2 {
+                    let mut st = base.clone();
+                    st.binder_names = levels.iter().zip(base.binder_names.iter()).map(|(l, d)| if (*l as usize) < names.props.len() { names.props[(*l as usize + j) % names.props.len()].clone() } else { d.clone() }).collect();
+                    out.push((format!("rename binders by level to network variables (rotation {j})"), style::render(f, names, &st)));
+                }
+            }
+        }
+    }
     let toks = style::tokens(f, names, &base);
     // whitespace
     for (wname, ws) in [("none", ""), ("double", "  "), ("tab", "\t"), ("newline", "\n"), ("nbsp", "\u{a0}"), ("mixed", " \t\n ")] {
@@ -230,7 +247,7 @@ pub fn run(tier: &str) -> Result<Report, String> {
     }
     rep.evaluations = total_rewrites;
     rep.distinct_nontrivial = distinct_rewrites;
-    rep.rule = format!("for every closed plain formula with <= {m} nodes, every template formula, the family Q1{{x}}: ((Q2{{y}}: A) op B), all chains of two binary operators in both association orders, duplicate templates and every extended formula with <= 3 nodes, on {which:?}: all scope-respecting assignments of the names {POOL:?} to its binders (consistent renaming incl. permutations of the internal names x, xx, xxx), whitespace patterns (none where legal, double, tab, newline, NBSP, mixed; everywhere and at each single token boundary), 1-2 redundant parentheses around each sub-formula and around all, the minimal-parentheses rendering and the minimal rendering with one sub-formula keeping its parentheses, long spellings of each/all hybrid operators, constant spellings; the rewritten text must evaluate (model_check_formula / model_check_extended_formula_dirty) to the same set as the canonical text. distinct_nontrivial = number of rewritten texts that differ from the canonical text and from each other (per formula and network), counted with a hash set; evaluations additionally counts the canonical text");
+    rep.rule = format!("for every closed plain formula with <= {m} nodes, every template formula, the family Q1{{x}}: ((Q2{{y}}: A) op B), all chains of two binary operators in both association orders, duplicate templates and every extended formula with <= 3 nodes, on {which:?}: all scope-respecting assignments of the names {POOL:?} to its binders (consistent renaming incl. permutations of the internal names x, xx, xxx), renamings of binders to the names of network variables, whitespace patterns (none where legal, double, tab, newline, NBSP, mixed; everywhere and at each single token boundary), 1-2 redundant parentheses around each sub-formula and around all, the minimal-parentheses rendering and the minimal rendering with one sub-formula keeping its parentheses, long spellings of each/all hybrid operators, constant spellings; the rewritten text must evaluate (model_check_formula / model_check_extended_formula_dirty) to the same set as the canonical text. distinct_nontrivial = number of rewritten texts that differ from the canonical text and from each other (per formula and network), counted with a hash set; evaluations additionally counts the canonical text");
     rep.assumptions.push("the rewrite generator only produces meaning-preserving variants by construction (consistent renaming respecting scopes, whitespace only between tokens, balanced extra parentheses)".into());
     Ok(rep)
 }
